@@ -1,3 +1,235 @@
-(* MemP.v — proofs about Model/Mem.v (under construction) *)
-From Coq Require Import ZArith List Bool Lia.
+(* MemP.v — proofs about Model/Mem.v: the simulated memory (write queue, per-domain port processes,
+   testbench row access) refines the array-of-rows specification. *)
+From Coq Require Import ZArith List Bool Lia ZifyBool.
 From V.Model Require Import Bits Mem.
+From V.Proofs Require Import BitsP.
+Import ListNotations.
+Open Scope Z_scope.
+
+(* ================================================================== bit-level helpers *)
+Lemma small_bits w x i : 0 <= w -> 0 <= x < 2 ^ w -> w <= i -> Z.testbit x i = false.
+Proof.
+  intros Hw Hx Hi. rewrite <- (mask_small w x Hx). rewrite testbit_mask by auto.
+  replace (i <? w) with false by lia. reflexivity.
+Qed.
+
+Lemma bits_small w x : 0 <= w -> (forall i, w <= i -> Z.testbit x i = false) -> 0 <= x < 2 ^ w.
+Proof.
+  intros Hw H. assert (x = mask w x) as ->.
+  { apply Z.bits_inj'; intros i Hi. rewrite testbit_mask by auto.
+    destruct (i <? w) eqn:E; simpl; auto. apply H; lia. }
+  apply mask_range; auto.
+Qed.
+
+Lemma testbit_add_pow2 x y g i : 0 <= g -> 0 <= x < 2 ^ g -> 0 <= i ->
+  Z.testbit (x + 2 ^ g * y) i = if i <? g then Z.testbit x i else Z.testbit y (i - g).
+Proof.
+  intros Hg Hx Hi. replace (x + 2 ^ g * y) with (x + y * 2 ^ g) by lia.
+  rewrite <- lor_shiftl_add by auto. rewrite Z.lor_spec.
+  destruct (i <? g) eqn:E.
+  - rewrite Z.shiftl_spec_low by lia. apply orb_false_r.
+  - rewrite (small_bits g x i) by lia. rewrite Z.shiftl_spec by lia. reflexivity.
+Qed.
+
+Lemma wf_shape_width s : wf_shape s = true -> 0 <= width s.
+Proof. unfold wf_shape. destruct (sgn s); lia. Qed.
+
+Lemma norm_bits_low s v i : wf_shape s = true -> 0 <= i < width s ->
+  Z.testbit (norm s v) i = Z.testbit v i.
+Proof.
+  intros Hs Hi. rewrite testbit_norm by (auto; lia).
+  replace (i <? width s) with true by lia. destruct (sgn s); reflexivity.
+Qed.
+
+Lemma norm_low_bits s x y : wf_shape s = true ->
+  (forall i, 0 <= i < width s -> Z.testbit x i = Z.testbit y i) -> norm s x = norm s y.
+Proof.
+  intros Hs H. apply Z.bits_inj'; intros i Hi. rewrite !testbit_norm by auto.
+  pose proof (wf_shape_width s Hs) as Hw.
+  unfold wf_shape in Hs. destruct (sgn s).
+  - destruct (i <? width s) eqn:E; apply H; lia.
+  - destruct (i <? width s) eqn:E; simpl; auto. apply H; lia.
+Qed.
+
+Lemma in_range_bits_eq s x y : wf_shape s = true -> in_range s x -> in_range s y ->
+  (forall i, 0 <= i < width s -> Z.testbit x i = Z.testbit y i) -> x = y.
+Proof.
+  intros Hs Hx Hy H. rewrite <- (norm_id s x Hs Hx), <- (norm_id s y Hs Hy).
+  apply norm_low_bits; auto.
+Qed.
+
+Lemma in_range_0 s : wf_shape s = true -> in_range s 0.
+Proof.
+  intros Hs. unfold in_range. unfold wf_shape in Hs. destruct (sgn s).
+  - pose proof (pow2_pos (width s - 1) ltac:(lia)). lia.
+  - pose proof (pow2_pos (width s) ltac:(lia)). lia.
+Qed.
+
+(* ------------------------------------------------------------------ sign_fix / wrv *)
+Lemma sign_fix_norm s v : wf_shape s = true -> (sgn s = false -> 0 <= v < 2 ^ width s) ->
+  sign_fix s v = norm s v.
+Proof.
+  intros Hs Hu. unfold sign_fix, norm. pose proof Hs as Hs'. unfold wf_shape in Hs'.
+  destruct (sgn s) eqn:Es.
+  - apply Z.bits_inj'; intros i Hi. rewrite testbit_sext by (auto; lia).
+    destruct (Z.testbit v (width s - 1)) eqn:Et.
+    + rewrite Z.lor_spec, testbit_neg_pow2 by lia.
+      destruct (i <? width s) eqn:E.
+      * replace (width s <=? i) with false by lia. apply orb_false_r.
+      * replace (width s <=? i) with true by lia. rewrite orb_true_r. auto.
+    + rewrite mask_land_pow by lia. rewrite testbit_mask by lia.
+      destruct (i <? width s) eqn:E; simpl; auto.
+  - symmetry. apply mask_small. auto.
+Qed.
+
+Lemma sign_fix_bits s v i : wf_shape s = true -> 0 <= i < width s ->
+  Z.testbit (sign_fix s v) i = Z.testbit v i.
+Proof.
+  intros Hs Hi. unfold sign_fix. destruct (sgn s); auto.
+  destruct (Z.testbit v (width s - 1)).
+  - rewrite Z.lor_spec, testbit_neg_pow2 by lia. replace (width s <=? i) with false by lia. apply orb_false_r.
+  - rewrite mask_land_pow by lia. rewrite testbit_mask by lia. replace (i <? width s) with true by lia. reflexivity.
+Qed.
+
+Definition merge (cur value msk : Z) : Z := Z.lor (Z.land value msk) (Z.land cur (Z.lnot msk)).
+
+Lemma merge_bits cur value msk i : 0 <= i ->
+  Z.testbit (merge cur value msk) i = if Z.testbit msk i then Z.testbit value i else Z.testbit cur i.
+Proof.
+  intros Hi. unfold merge. rewrite Z.lor_spec, !Z.land_spec, Z.lnot_spec by auto.
+  destruct (Z.testbit msk i); simpl; rewrite ?andb_true_r, ?andb_false_r, ?orb_false_r; auto.
+Qed.
+
+Lemma in_range_unsigned_nonneg s x : sgn s = false -> in_range s x -> 0 <= x < 2 ^ width s.
+Proof. unfold in_range. intros ->. auto. Qed.
+
+Lemma wrv_norm s cur value msk : wf_shape s = true -> in_range s cur -> 0 <= msk < 2 ^ width s ->
+  wrv s cur value msk = norm s (merge cur value msk).
+Proof.
+  intros Hs Hc Hm. unfold wrv. fold (merge cur value msk). apply sign_fix_norm; auto.
+  intros Hu. pose proof (wf_shape_width s Hs) as Hw.
+  apply bits_small; auto. intros i Hi. rewrite merge_bits by lia.
+  rewrite (small_bits (width s) msk i) by (auto; lia).
+  apply (small_bits (width s)); auto; try lia. apply in_range_unsigned_nonneg; auto.
+Qed.
+
+Lemma wrv_bits s cur value msk i : wf_shape s = true -> 0 <= i < width s ->
+  Z.testbit (wrv s cur value msk) i = if Z.testbit msk i then Z.testbit value i else Z.testbit cur i.
+Proof.
+  intros Hs Hi. unfold wrv. fold (merge cur value msk). rewrite sign_fix_bits by auto.
+  apply merge_bits; lia.
+Qed.
+
+Lemma wrv_in_range s cur value msk : wf_shape s = true -> in_range s cur -> 0 <= msk < 2 ^ width s ->
+  in_range s (wrv s cur value msk).
+Proof. intros. rewrite wrv_norm by auto. apply norm_in_range; auto. Qed.
+
+(* ================================================================== enables, granules *)
+Lemma div_sub_self i g : 0 < g -> (i - g) / g = i / g - 1.
+Proof.
+  intros Hg. replace i with ((i - g) + 1 * g) at 2 by lia. rewrite Z.div_add by lia. lia.
+Qed.
+Lemma mod_sub_self i g : 0 < g -> (i - g) mod g = i mod g.
+Proof.
+  intros Hg. replace i with ((i - g) + 1 * g) at 2 by lia. rewrite Z.mod_add by lia. reflexivity.
+Qed.
+
+Lemma ones_range g : 0 <= g -> 0 <= Z.ones g < 2 ^ g.
+Proof. intros. rewrite Z.ones_equiv. pose proof (pow2_pos g ltac:(lia)). lia. Qed.
+
+Lemma en_cat_from_bits g n : 0 < g -> forall k en i, 0 <= i ->
+  Z.testbit (en_cat_from g n k en) i = (i <? g * Z.of_nat n) && Z.testbit en (k + i / g).
+Proof.
+  intros Hg. induction n as [|n IH]; intros k en i Hi.
+  - cbn [en_cat_from]. rewrite Z.bits_0. replace (i <? g * Z.of_nat 0) with false by lia. reflexivity.
+  - cbn [en_cat_from]. rewrite testbit_add_pow2; try lia.
+    2:{ destruct (Z.testbit en k); [apply ones_range; lia | pose proof (pow2_pos g ltac:(lia)); lia]. }
+    destruct (i <? g) eqn:E.
+    + rewrite Z.div_small by lia. replace (k + 0) with k by lia.
+      replace (i <? g * Z.of_nat (S n)) with true by nia.
+      destruct (Z.testbit en k); simpl.
+      * apply Z.ones_spec_low; lia.
+      * apply Z.bits_0.
+    + rewrite IH by lia. rewrite div_sub_self by lia.
+      replace (k + 1 + (i / g - 1)) with (k + i / g) by lia.
+      f_equal. rewrite Nat2Z.inj_succ. destruct (i - g <? g * Z.of_nat n) eqn:E2; nia.
+Qed.
+
+Lemma join_bits g l : 0 < g -> (forall x, In x l -> 0 <= x < 2 ^ g) -> forall i, 0 <= i ->
+  Z.testbit (join g l) i = Z.testbit (nth (Z.to_nat (i / g)) l 0) (i mod g).
+Proof.
+  intros Hg. induction l as [|x l IH]; intros Hl i Hi.
+  - cbn [join]. destruct (Z.to_nat (i / g)); cbn [nth]; rewrite !Z.bits_0; reflexivity.
+  - cbn [join]. rewrite testbit_add_pow2; try lia. 2:{ apply Hl; left; auto. }
+    destruct (i <? g) eqn:E.
+    + rewrite Z.div_small, Z.mod_small by lia. reflexivity.
+    + rewrite IH; try lia. 2:{ intros; apply Hl; right; auto. }
+      rewrite div_sub_self, mod_sub_self by lia.
+      assert (1 <= i / g) by (apply Z.div_le_lower_bound; lia).
+      replace (Z.to_nat (i / g)) with (S (Z.to_nat (i / g - 1))) by lia. reflexivity.
+Qed.
+
+Lemma granule_range g k v : 0 <= g -> 0 <= granule g k v < 2 ^ g.
+Proof. intros. unfold granule. apply Z.mod_pos_bound. apply pow2_pos; auto. Qed.
+
+Lemma granule_bits g k v j : 0 < g -> 0 <= k -> 0 <= j < g ->
+  Z.testbit (granule g k v) j = Z.testbit v (g * k + j).
+Proof.
+  intros Hg Hk Hj. unfold granule. rewrite Z.mod_pow2_bits_low by lia.
+  rewrite testbit_div_pow2 by nia. f_equal. lia.
+Qed.
+
+Lemma nth_map_seq (f : nat -> Z) n k d : (k < n)%nat -> nth k (map f (seq 0 n)) d = f k.
+Proof.
+  intros. rewrite (nth_indep _ d (f 0%nat)) by (rewrite map_length, seq_length; auto).
+  rewrite map_nth. rewrite seq_nth by auto. reflexivity.
+Qed.
+
+Lemma spec_write_row_bits s g n en d old i : wf_shape s = true -> 0 < g -> g * Z.of_nat n = width s ->
+  0 <= i < width s ->
+  Z.testbit (spec_write_row s g n en d old) i = if Z.testbit en (i / g) then Z.testbit d i else Z.testbit old i.
+Proof.
+  intros Hs Hg Hn Hi. unfold spec_write_row. rewrite norm_bits_low by auto.
+  rewrite join_bits; try lia.
+  2:{ intros x Hx. apply in_map_iff in Hx. destruct Hx as (k & <- & _).
+      destruct (Z.testbit en (Z.of_nat k)); apply granule_range; lia. }
+  assert (0 <= i / g) by (apply Z.div_pos; lia).
+  assert (i / g < Z.of_nat n) by (apply Z.div_lt_upper_bound; lia).
+  pose proof (Z.mod_pos_bound i g Hg) as Hm. pose proof (Z.div_mod i g ltac:(lia)) as Hdm.
+  rewrite nth_map_seq by lia. rewrite Z2Nat.id by lia.
+  destruct (Z.testbit en (i / g)); rewrite granule_bits by lia; f_equal; lia.
+Qed.
+
+Lemma spec_write_row_in_range s g n en d old : wf_shape s = true -> in_range s (spec_write_row s g n en d old).
+Proof. intros. apply norm_in_range; auto. Qed.
+
+(* a write port of the model and the same port of the specification *)
+Definition mact_of (s : shape) (t : sact) : action :=
+  let '(wa, enw, en, d) := t in
+  (wa, mask (width s) d, mask (width s) (en_cat (granularity (width s) enw) (Z.to_nat enw) en)).
+
+Definition wf_sact (s : shape) (t : sact) : Prop :=
+  let '(wa, enw, en, d) := t in wf_wport s (WP 0 enw) = true.
+
+Lemma wrv_eq_spec s enw en d r : wf_shape s = true -> wf_wport s (WP 0 enw) = true -> in_range s r ->
+  wrv s r (mask (width s) d) (mask (width s) (en_cat (granularity (width s) enw) (Z.to_nat enw) en)) =
+  spec_write_row s (granularity (width s) enw) (Z.to_nat enw) en d r.
+Proof.
+  intros Hs Hp Hr. pose proof (wf_shape_width s Hs) as Hw.
+  apply in_range_bits_eq; auto.
+  - apply wrv_in_range; auto. apply mask_range; auto.
+  - apply spec_write_row_in_range; auto.
+  - intros i Hi. unfold wf_wport in Hp. cbn [wp_enw] in Hp.
+    replace (width s =? 0) with false in Hp by lia.
+    assert (1 <= enw /\ width s mod enw = 0) as [He Hm] by lia.
+    pose proof (Z.div_mod (width s) enw ltac:(lia)) as Hdm.
+    assert (Hg : granularity (width s) enw = width s / enw).
+    { unfold granularity. replace (width s =? 0) with false by lia. reflexivity. }
+    assert (0 < width s / enw) by nia.
+    rewrite wrv_bits by auto. rewrite !testbit_mask by auto.
+    replace (i <? width s) with true by lia. cbn [andb].
+    unfold en_cat. rewrite en_cat_from_bits by lia. rewrite Hg.
+    rewrite Z2Nat.id by lia.
+    replace (i <? width s / enw * enw) with true by nia. cbn [andb]. rewrite Z.add_0_l.
+    rewrite spec_write_row_bits; auto; try lia. rewrite Z2Nat.id by lia. nia.
+Qed.
